@@ -349,6 +349,31 @@ def check(run):
                               'a character-class test excludes the boundary character itself (%s): that one character is treated differently from the rest of its class - e.g. header names containing it are not folded to lower case, so look-ups and duplicate handling miss them' % q.render(f_, n_),
                               'boundary included')
     run.ok('R5', 'class-boundary-inclusive', 'scan', '', 'comparisons against class boundary characters in http_server.cpp: %d' % ncls, nontrivial=False)
+    run.clause('substr(pos, n) takes a LENGTH: where both arguments are cursors of the same string, pos + n is a single cursor (n = end - pos), not the sum of two positions')
+    nsub = 0
+    for f_ in [g_ for g_ in fx.repo_functions(raw=True) if g_.file.endswith('http_server.cpp') and g_.cfg is not None]:
+        for c in f_.calls():
+            if (q.callee_name(c) or '').split('::')[-1] != 'substr' or len(c.get('args') or []) != 2:
+                continue
+            a0, a1 = q.strip_casts(c['args'][0]), q.strip_casts(c['args'][1])
+            if q.int_value(a0) is not None or q.int_value(a1) is not None or (is_node(a1) and a1.get('k') == 'defarg'):
+                continue
+            l0, l1 = q.linform(f_, a0), q.linform(f_, a1)
+            if not l0 or not l1:
+                continue
+            nsub += 1
+            run.touch(f_)
+            tot = dict(l0[0])
+            for k_, v_ in l1[0].items():
+                tot[k_] = tot.get(k_, 0) + v_
+            tot = {k_: v_ for k_, v_ in tot.items() if v_ != 0}
+            # two different local cursors added up: the end of the piece lies beyond either of them
+            cursors = [k_ for k_, v_ in tot.items() if v_ > 0 and '(' not in k_]
+            run.check(len(cursors) <= 1, 'R12', 'substr-length', '%s: %s' % (q.top_function(fx, f_).norm, q.render(f_, c)[:50]), f_.loc(c),
+                      'substr is given the position %s and, as its length, an expression such that position + length = %s: the second argument is an end POSITION, not a length - the piece runs %s characters further than intended (clamped by the string, so whatever follows the intended end comes back: trailing whitespace after a trim)' % (q.render(f_, a0), ' + '.join(sorted(cursors)), q.render(f_, a0)),
+                      'position + length is a single cursor')
+    if nsub < 1:
+        run.broke('http_server.cpp: no substr(pos, n) with two run-time arguments found (trim() used one)')
     run.clause('no scan is bounded by a signed difference converted to unsigned: a window shorter than the needle must give an empty scan, not a 2^64 one')
     nsd = engines.signed_difference_compares(run, [f_ for f_ in fx.repo_functions(raw=True) if f_.file.endswith('http_server.cpp') and f_.cfg is not None])
     run.ok('R11', 'unsigned-compare-of-difference', 'scan', '', 'relational comparisons with a signed operand converted to unsigned in http_server.cpp: %d' % nsd, nontrivial=False)
